@@ -588,7 +588,7 @@ func Check(c *core.Ctx) (map[string]any, []string, error) {
 	}
 	distinct := map[string]bool{}
 	for _, l := range lines {
-		distinct[l.K+"|"+l.ID+"|"+l.Owner+"|"+l.Name] = true
+		distinct[l.K+"|"+l.ID+"|"+l.Owner+"|"+l.Name+"|"+l.Call] = true
 	}
 	cov := map[string]any{
 		"states": res.Distinct, "transitions": res.Generated, "traces_validated_against_impl": evals,
